@@ -610,6 +610,10 @@ def _check_read(c, ev, res, spec_c, order, name, a, ins, expect_ok, flt, P, stat
 
 
 # ---------------------------------------------------------------- replay
+class ArgumentChanged(Exception):
+    """a call changed an object owned by the caller (reported like an exception of the call itself)"""
+
+
 class Drift(Exception):
     """the implementation accepted a call the specification rejects (outside the properties' domain)"""
 
@@ -640,8 +644,14 @@ def apply_event(objs, ev, params=NOPARAMS):
         c = objs[t]
         nuser = c.n_modes - len(c._internal_modes)
         labels = None if a[3] == 99 else ["m%d" % i for i in range(nuser + a[3])]
+        given = None if labels is None else list(labels)
         try:
             lw.Display(c, display_loss=a[1], mode_labels=labels, display_type=a[0], show_parameter_values=a[2])
+            if labels is not None and a[3] == 0:
+                if labels != given:
+                    raise ArgumentChanged("Display changed the caller's mode_labels list from %s to %s" % (given, labels))
+                # the same (unchanged) list must be usable again
+                lw.Display(c, display_loss=a[1], mode_labels=labels, display_type=a[0], show_parameter_values=a[2])
         finally:
             plt.close("all")
     elif name == "bar":
